@@ -104,6 +104,31 @@ impl C10 {
             }
         }
         let mut log: Vec<String> = Vec::new();
+        // pre-load (multi-page tables and indexes; the chunks are large enough for an index root to split in the
+        // middle of one statement): identical statements on both twins
+        for (ti, spec) in case.h.tables.iter().enumerate() {
+            if ti >= model.tables.len() {
+                continue;
+            }
+            for (sql, rows) in crate::hist::prefill_statements(spec, 120) {
+                let ea = a.exec(&sql);
+                let eb = b.exec(&sql);
+                match (&ea, &eb) {
+                    (Exec::Ok { .. }, Exec::Ok { .. }) => {
+                        model.tables[ti].rows.extend(rows);
+                        model.tables[ti].ever_had_rows = true;
+                    }
+                    (Exec::Err(e), Exec::Ok { .. }) => {
+                        return out.fail("C10|outcome|rejected_only_with_indexes|INSERT|prefill", format!("pre-load statement accepted by the twin without indexes, rejected with them: {} ({})", e, Model::create_sql(&model.tables[ti]).join("; ")));
+                    }
+                    _ => return out.class("prefill_rejected"),
+                }
+            }
+            if model.tables[ti].ever_had_rows && spec.prefill > 0 {
+                log.push(format!("-- {} rows pre-loaded into {}", spec.prefill, spec.name));
+                out.add_class(if spec.prefill >= 300 { "prefill:600" } else { "prefill:70" });
+            }
+        }
         let mut index_plans = 0usize;
         let mut max_rows = 0usize;
         let mut compared = 0usize;
@@ -232,7 +257,7 @@ impl Check for C10 {
 
 pub fn strategy() -> BoxedStrategy<Case> {
     let p = Profile { max_ops: 30, dml: 10, ddl: 2, txn: 1, truncate: 0, ..Profile::default() };
-    let pb = Profile { max_ops: 50, dml: 12, ddl: 2, txn: 1, truncate: 0, big_keys: true, max_insert_rows: 12, ..Profile::default() };
+    let pb = Profile { max_ops: 50, dml: 12, ddl: 2, txn: 1, truncate: 0, big_keys: true, max_insert_rows: 12, prefill: true, ..Profile::default() };
     prop_oneof![
         2 => history_strategy(&p).prop_map(|h| Case { big: false, h }),
         2 => history_strategy(&pb).prop_map(|h| Case { big: true, h }),
